@@ -11,8 +11,8 @@
    the combination logic is proved. *)
 From Coq Require Import List ZArith QArith.
 From TskVerif Require Import C08.Model C08.Incremental C08.Afs C08.Shapes C08.PairSpan C08.Rf C08.RelVec
-  C08.WindowProofs C08.ChunkProofs C08.IncrementalProofs C08.AfsProofs C08.ShapesProofs
-  C08.PairSpanProofs C08.RfProofs C08.RelVecProofs.
+  C08.WindowProofs C08.ChunkProofs C08.IncrementalProofs C08.AccountProofs C08.AfsProofs C08.ShapesProofs
+  C08.PairSpanProofs C08.PairSpanFull C08.RfProofs C08.RelVecProofs.
 Import ListNotations.
 Open Scope Q_scope.
 
@@ -90,13 +90,30 @@ Proof. exact schedule_independent_all. Qed.
    sum is the naive per-tree sum  sum_u branch_length[u] * f(state[u])  over the
    algorithm's arrays.  Missing for the full statement
      branch_incremental ... = Some (windowed (branch_stat ...) ws):
-   the arrays equal the specification's state / parent_at, and the window accounting. *)
+   the arrays equal the specification's state / parent_at (the window accounting is (d')). *)
 Theorem branch_incremental_refines_spec_partial :
   forall (k : nat) (F : vec -> Q) (time : list Q) (ops : list op) (n : nat) (W : weights),
     ops_ok F time ops (init_state k F n W) ->
     let s := fold_left (apply_op F time) ops (init_state k F n W) in
     b_rs s == dot (b_bl s) (map F (b_state s)).
 Proof. exact running_sum_is_tree_sum. Qed.
+
+(* (d') The window accounting loop of the same port (trees.c 1409-1429), for every window
+   list: if the trees the sweep visited form a contiguous sequence of non-empty intervals
+   from the first to the last breakpoint (what sorted index arrays give), the port returns,
+   for window w, the sum over the visited trees of overlap(tree, w) * running_sum(tree).
+   With (d) the running sum of each tree is sum_u branch_length[u] f(state[u]) of the
+   algorithm's arrays.  [full for the accounting loop; what is still missing for
+   "port = branch_stat" is only: the algorithm's state[] / parent[] arrays and visited
+   intervals equal the specification's state / parent_at and tree intervals] *)
+Theorem branch_incremental_window_accounting :
+  forall (k : nat) (F : vec -> Q) (time : list Q) (W : weights) (E : list edge) (I O : list Z)
+         (L x : Q) (ws' : list Q) (trace : list trec) (hi : Q),
+    branch_trace k F time W E I O L = Some trace ->
+    ttiles trace x hi -> sincr (x :: ws') -> Forall (fun b => b <= hi) ws' ->
+    exists rows, branch_incremental k F time W E I O L (x :: ws') = Some rows /\
+                 Forall2 Qeq rows (windowed (S trace) (x :: ws')).
+Proof. exact incremental_window_accounting. Qed.
 
 (* ---- defects C08-F1..F4 were repaired in /repo (af93ddc, 093fdd5, a2ba426, e85e341); the
    models used by the correspondence follow the repaired code.  Positive statements about
@@ -139,6 +156,16 @@ Theorem pair_coalescence_span_bounded :
   forall trees ws, In trees tilings_scope -> In ws windows_scope ->
     qlist_eqb (pcc_code_spans trees ws) (pcc_spec_spans trees ws) = true.
 Proof. exact pcc_spans_bounded. Qed.
+
+(* C08-F3, unbounded.  For every contiguous sequence of trees tiling [lo,hi) (each with or
+   without edges) and every strictly increasing window list from lo up to hi, the span the
+   repaired pair_coalescence_counts divides by is the non-missing span of each window.
+   [full, for the model of the span bookkeeping] *)
+Theorem pair_coalescence_span_correct :
+  forall trees lo hi x ws',
+    ptiles trees lo hi -> x == lo -> sincr (x :: ws') -> Forall (fun b => b <= hi) ws' ->
+    Forall2 Qeq (pcc_code_spans trees (x :: ws')) (pcc_spec_spans trees (x :: ws')).
+Proof. exact pcc_spans_correct. Qed.
 
 Theorem pair_coalescence_span_pinned_refuted :
   exists trees ws,
